@@ -109,6 +109,11 @@ def make_server_classes():
             # inside _check_file: the scripted result for this read position; what was actually
             # returned is recorded and handed to the model as its oracle input
             pos = len(si.cf_rec)
+            if pos > 3000:
+                # far more reads than any range here needs (<= 600): the loop does not advance.  Cut it off
+                # (the thread would spin for ever) and let the oracle report it.
+                si.runaway = si.req_index
+                raise RuntimeError("runaway read loop cut off by the harness")
             act = si.cf["script"].get(pos, "full")
             blob = si.cf["blob"]
             if act == "full":
@@ -164,6 +169,7 @@ def make_server_classes():
             self.cur = ("CbOther",)
             self.cf = None          # check-file script of the current request
             self.cf_rec = []
+            self.runaway = False
             self.calls = 0
 
         def out(self, closing=False):
@@ -298,6 +304,7 @@ def drive_server(reqs):
         si.cur = q["cb"]
         si.cf = q.get("cf") if (q["t"] == 200 and q["tag"] == 0 and q["shape"] == "normal") else None
         si.cf_rec = []
+        si.req_index = i
         return q["t"], encode_request(q)
 
     def send_packet(t, msg):
@@ -314,7 +321,13 @@ def drive_server(reqs):
     for i, t, p in sent:
         if i >= 1:
             per[i - 1].append(parse_response(t, p))
-    return per, cf_out, state["i"], died
+    consumed = state["i"]
+    if si.runaway:
+        died = (died + "; " if died else "") + "the check-file request made more than 3000 handle.read calls " \
+            "without advancing (runaway loop cut off by the harness: the server would never answer it nor read " \
+            "another request)"
+        consumed = si.runaway
+    return per, cf_out, consumed, died
 
 
 CB_SENSIBLE = {
@@ -511,6 +524,7 @@ def server_part(ctx, nstreams):
     cases = []
     metas = []
     fixed = cf_systematic_streams()
+    hangs = 0
     for s in range(nstreams + len(fixed)):
         if s < len(fixed):
             reqs = fixed[s]
@@ -518,8 +532,11 @@ def server_part(ctx, nstreams):
             reqs = gen_cf_stream(rng)
         else:
             reqs = gen_stream(rng, rng.randrange(4, 16))
-        st, res = with_watchdog(lambda: drive_server(reqs), 30.0)
+        if hangs >= 2:
+            break               # hung serving threads cannot be stopped; two concrete streams are enough
+        st, res = with_watchdog(lambda: drive_server(reqs), 10.0)
         if st == "hang":
+            hangs += 1
             ctx.fail("server-stops-answering", "SFTPServer.start_subsystem did not finish a scripted request stream",
                      case={"reqs": [(q["t"], q["id"], q["hbytes"], q["cb"]) for q in reqs]})
             continue
@@ -534,7 +551,11 @@ def server_part(ctx, nstreams):
                      % (k, reqs[k]["t"], reqs[k]["id"], " with " + died if died else ""),
                      case={"request_stream": [(q["t"], q["id"], q["hbytes"], q["cb"], q["text_ok"], q["tag"],
                                                q["shape"]) for q in reqs[:k + 1]],
-                           "stopped_at": k},
+                           "stopped_at": k,
+                           "check_file": None if "cf" not in reqs[k] else {
+                               "start": reqs[k]["cf_start"], "length": reqs[k]["cf_len"],
+                               "block_size": reqs[k]["cf_block"], "file_size": len(reqs[k]["cf"]["blob"]),
+                               "read_script": sorted(reqs[k]["cf"]["script"].items())}},
                      expected="%d requests answered" % len(reqs), observed="%d requests read; %s" % (consumed - 1, died))
             reqs = reqs[:k + 1]
             per = per[:k + 1]
@@ -871,8 +892,11 @@ def reorder_reads_part(ctx, n):
         ctx.count(("reorder-reads", repr(case)), kind="client:reordering-server:" + kind)
         st, v = with_watchdog(lambda: one(seed, kind, arg), 20.0)
         if st == "hang" or (st == "exc" and isinstance(v, WouldBlock)):
+            stop = st == "hang"
             ctx.fail("client-blocks:reordered-replies:" + kind, "%s on a server that answers out of order never "
                      "completes although every request was answered" % kind, case=case)
+            if stop:
+                break
         elif st == "exc":
             ctx.fail("client-raises:reordered-replies:" + kind, "%s on a server that answers out of order raised %r"
                      % (kind, v), case=case, observed=repr(v))
@@ -927,8 +951,21 @@ def client_part(ctx, nprogs):
 # 3. real client against a real server (Transport pair over LoopSocket)
 
 
+# documented channel options of an sftp session: (window_size, max_packet_size) given to
+# SFTPClient.from_transport, and (default_window_size, default_max_packet_size) of the server Transport
+SESSION_CONFIGS = [
+    (None, None, None, None),
+    (32768, None, None, None),          # the smallest legal window, equal to the default packet size
+    (32768, 4096, None, None),
+    (1, 1, None, None),                 # clamped to the minima
+    (65536, 32768, None, None),
+    (None, None, 32768, 32768),         # a server whose channels have the smallest window
+    (40000, 16384, 32768, 4096),
+]
+
+
 class Session:
-    def __init__(self, repo):
+    def __init__(self, repo, config=None):
         import paramiko
         from _loop import LoopSocket
         from _stub_sftp import StubServer, StubSFTPServer
@@ -936,15 +973,19 @@ class Session:
         StubSFTPServer.ROOT = self.root
         a, b = LoopSocket(), LoopSocket()
         a.link(b)
+        self.config = cw, cp, sw, sp = config or (None, None, None, None)
         self.tc = paramiko.Transport(a)
-        self.ts = paramiko.Transport(b)
+        skw = {}
+        if sw is not None:
+            skw = {"default_window_size": sw, "default_max_packet_size": sp}
+        self.ts = paramiko.Transport(b, **skw)
         self.ts.add_server_key(paramiko.RSAKey.from_private_key_file(os.path.join(repo, "tests", "_support", "rsa.key")))
         ev = threading.Event()
         self.ts.set_subsystem_handler("sftp", paramiko.SFTPServer, StubSFTPServer)
         self.ts.start_server(ev, StubServer())
         self.tc.connect(username="slowdive", password="pygmalion")
         ev.wait(10)
-        self.sftp = paramiko.SFTPClient.from_transport(self.tc)
+        self.sftp = paramiko.SFTPClient.from_transport(self.tc, window_size=cw, max_packet_size=cp)
 
     def close(self):
         for x in (self.sftp, self.tc, self.ts):
@@ -1098,6 +1139,58 @@ def install_shrink():
     return StubSFTPServer, orig
 
 
+def options_part(ctx):
+    """The same kinds of program on sessions opened with the documented channel options (window_size /
+    max_packet_size of from_transport, default_window_size / default_max_packet_size of the server
+    Transport): smallest legal window, window == packet size, clamped values.  Quick tier: two option sets
+    rotating with the seed; thorough: all.  Two sessions are alive at a time and the first is used again
+    after the second."""
+    configs = SESSION_CONFIGS[1:]
+    if not ctx.thorough:
+        configs = [configs[(2 * ctx.seed + d) % len(configs)] for d in (0, 1)]
+    cls, orig_open = install_shrink()
+    old_hook = threading.excepthook
+    threading.excepthook = lambda args: None
+    prog = [("prefetch_read", None), ("w", 40), ("stat",), ("getfo_shrunk", 70000), ("w", 110), ("listdir",),
+            ("readv_past", 5000), ("prefetch_stale", 2, True)]
+    first = Session(ctx.repo)
+    try:
+        for j, cfg in enumerate(configs):
+            sess = Session(ctx.repo, cfg)
+            try:
+                for which, s_ in (("configured", sess), ("default-session-used-again", first)):
+                    from _stub_sftp import StubSFTPServer
+                    StubSFTPServer.ROOT = s_.root
+                    progress = {}
+                    case = {"live_program": prog, "session": which,
+                            "options": dict(zip(("window_size", "max_packet_size", "server_default_window_size",
+                                                 "server_default_max_packet_size"), cfg))}
+                    ctx.count(("options", j, which, cfg), kind="live-options")
+                    name = "/opt%d%s.bin" % (j, which[0])
+                    st, v = with_watchdog(lambda: run_live(s_, prog, name, progress), 20.0)
+                    if st == "hang":
+                        i, op = progress.get("op", (-1, ("?",)))
+                        case.update(blocked_at=i, operation=op)
+                        ctx.fail("client-blocks:channel-options:" + op[0],
+                                 "operation %d %r never returns on a session opened with %r although the server "
+                                 "answers every request" % (i, op, case["options"]), case=case,
+                                 expected="completes", observed="hang")
+                        return
+                    if st == "exc":
+                        ctx.fail("live-program-raises:channel-options", "a fault-free program raised %r at %r on a "
+                                 "session opened with %r" % (v, progress.get("op"), case["options"]), case=case)
+                    elif v is not True:
+                        ctx.fail("live-program-result:channel-options", "a fault-free program misbehaved on a session "
+                                 "opened with %r: %s" % (case["options"], v), case=case, observed=v)
+            finally:
+                sess.close()
+    finally:
+        threading.excepthook = old_hook
+        cls.open = orig_open
+        SHRINK.clear()
+        first.close()
+
+
 def live_part(ctx, nprogs, only=None):
     rng = ctx.rng
     sess = Session(ctx.repo)
@@ -1201,7 +1294,8 @@ def run(ctx):
     for name, fn in (("server", lambda: server_part(ctx, 150 * scale)),
                      ("client", lambda: client_part(ctx, 60 * scale)),
                      ("reorder-reads", lambda: reorder_reads_part(ctx, 12 * scale)),
-                     ("live", lambda: live_part(ctx, 4 * (3 if ctx.thorough else 1)))):
+                     ("live", lambda: live_part(ctx, 4 * (3 if ctx.thorough else 1))),
+                     ("channel-options", lambda: options_part(ctx))):
         t0 = time.time()
         try:
             fn()
